@@ -52,7 +52,7 @@ theorem ConnOk.mono {gr bi snt res sr snt' res' sr' : Bool} {cn : Conn}
     resolved_closed := fun a => h.resolved_closed (h2 a)
     resolved_npending := fun a => h.resolved_npending (h2 a) }
 
-theorem callOk_new (chunks : List (List Item)) : CallOk (Call.new chunks) :=
+theorem callOk_new (chunks : List (List Item)) (req : Nat) : CallOk (Call.new chunks req) :=
   ⟨by simp [Call.new], by simp [Call.new], by simp [Call.new]⟩
 
 theorem connOk_new (gr bi snt res sr p : Bool) (hp : res = true → p = false) :
@@ -217,7 +217,7 @@ theorem good_step {s s' : State} {l : Label} (hg : Good s) (h : step s l = some 
     split at h
     · cases h; exact { hg with conns := hg.conns }
     · cases h
-  | issue c chunks =>
+  | issue c chunks req =>
     refine good_updConn hg h ?_
     intro cn _ _ hk
     refine { hk with started_hs := ?_, closed_calls := ?_, calls_ok := ?_ }
@@ -232,7 +232,13 @@ theorem good_step {s s' : State} {l : Label} (hg : Good s) (h : step s l = some 
     · intro k hkm
       rcases List.mem_append.1 hkm with hkm | hkm
       · exact hk.calls_ok k hkm
-      · simp only [List.mem_singleton] at hkm; subst hkm; exact callOk_new _
+      · simp only [List.mem_singleton] at hkm; subst hkm; exact callOk_new _ _
+  | reqSend c j =>
+    refine good_updCall hg h ?_
+    intro cn _ k hkm hkj _ hk
+    have hc := hk.calls_ok k hkm
+    exact connOk_setCall hk hkj (hk.started_hs k hkm)
+      (fun a b => hk.closed_calls a b k hkm) ⟨hc.plan_eq, hc.recv_le, hc.unstarted⟩
   | permit c j =>
     refine good_updCall hg h ?_
     intro cn _ k hkm hkj _ hk
@@ -507,7 +513,7 @@ theorem step_cfg {s s' : State} {l : Label} (h : step s l = some s') :
     · cases h
   case issue | peerDrop | connSig | connAge | connBreak | connDropWatcher | hsDone | final =>
     obtain ⟨_, _, _, rfl⟩ := updConn_some h; exact ⟨rfl, rfl, rfl⟩
-  case permit | cancel | callStart | produce | deliver =>
+  case permit | reqSend | cancel | callStart | produce | deliver =>
     obtain ⟨_, _, _, _, _, rfl⟩ := updCall_some h; exact ⟨rfl, rfl, rfl⟩
   case loopAccept =>
     split at h
